@@ -19,6 +19,7 @@ import (
 	"flag"
 	"fmt"
 	"go/ast"
+	"go/constant"
 	"go/importer"
 	"go/parser"
 	"go/token"
@@ -617,6 +618,7 @@ type regType struct {
 }
 
 type registry struct {
+	consts  map[uint64]bool
 	imports []string // alias "path"
 	funcs   []regFunc
 	types   []regType
@@ -632,6 +634,24 @@ func (r *registry) addPackage(p *listPkg, tpkg *types.Package, files []*ast.File
 	used := false
 	if r.methods == nil {
 		r.methods = map[string][]string{}
+	}
+	if r.consts == nil {
+		r.consts = map[uint64]bool{}
+	}
+	// exported integer constants (message types, IEIs, cause values, algorithm ids ...):
+	// a value pool for integer arguments, so that enum-specific branches are reached
+	scope := tpkg.Scope()
+	for _, name := range scope.Names() {
+		c, ok := scope.Lookup(name).(*types.Const)
+		if !ok || !c.Exported() {
+			continue
+		}
+		if b, ok := c.Type().Underlying().(*types.Basic); !ok || b.Info()&types.IsInteger == 0 {
+			continue
+		}
+		if v, exact := constant.Uint64Val(constant.ToInt(c.Val())); exact && v <= 0xffffffff {
+			r.consts[v] = true
+		}
 	}
 	for _, f := range files {
 		for _, d := range f.Decls {
@@ -721,7 +741,19 @@ func (r *registry) write() {
 	for _, t := range r.types {
 		fmt.Fprintf(&b, "\t{%q, %q, reflect.TypeOf((*%s.%s)(nil)).Elem()},\n", t.pkgRel, t.name, t.pkgAlias, t.name)
 	}
-	b.WriteString("}\n\nvar RegMethodParams = map[string][]string{\n")
+	b.WriteString("}\n\n// RegConsts: distinct values of the exported integer constants of the library.\nvar RegConsts = []uint64{")
+	cs := make([]uint64, 0, len(r.consts))
+	for v := range r.consts {
+		cs = append(cs, v)
+	}
+	sort.Slice(cs, func(i, j int) bool { return cs[i] < cs[j] })
+	for i, v := range cs {
+		if i%16 == 0 {
+			b.WriteString("\n\t")
+		}
+		fmt.Fprintf(&b, "%d, ", v)
+	}
+	b.WriteString("\n}\n\nvar RegMethodParams = map[string][]string{\n")
 	keys := make([]string, 0, len(r.methods))
 	for k := range r.methods {
 		keys = append(keys, k)
